@@ -7,6 +7,7 @@ CONSTANTS
   MaxInner = 1
   Boxes <- BoxesL
   KConv = 1000
+  KConvX = 10
 INVARIANTS TypeOK Budget
 PROPERTY Terminates
 CHECK_DEADLOCK FALSE
